@@ -8,11 +8,21 @@ SPEC = dict(
     rule="random scalar / gradient / Jacobian user functions (affine, quadratic, cubic with cross terms incl. small-integer "
          "coefficients; sums of sinusoids; exponentials of linear forms) in 1..20 parameters and 1..10 outputs, evaluation points "
          "incl. 0, |y|<0.1, 1e2..1e4, default and user-specified accuracy (1e-10,1e-6,1e-3), forward/central/unspecified method x "
-         "default method, fast (fy0 supplied) and slow overloads, every valid entry-point x function-shape route; one record per "
-         "differentiated column; distinct = distinct input records",
-    partial="floating-point rounding is not modelled: the rounding term of the bound is an explicit hypothesis (delta) in "
-            "forward_error_bound/central_error_bound and a measured 16*eps*sum|terms|/h allowance in the harness predicate; "
-            "cleanUpH's exact-representability purpose (y0+h exactly representable) is observed (P step_nonzero) but not proved",
+         "default method, method argument passed or omitted, fast (fy0 supplied) and slow overloads, every valid entry-point x "
+         "function-shape route; default CentralDifference with the method omitted is generated for every shape x route at least "
+         "twice per run; coverage floor P-lines; one record per differentiated column; distinct = distinct input records",
+    partial="(i) proved about the executed model (tie: step and quotient bit-exact on the logged function values): step selection "
+            "never zero and scaled by max(|y0|,0.1); forward exact on affine, central exact on quadratic with the selected step incl. "
+            "y0=0; error terms exact on quadratics/quartics; forward/central within M h/2 + 2 delta/h resp. M h^2/6 + delta/h, and "
+            "with the selected step and delta = acc*F within (M s/2+2F/s) sqrt(acc) resp. (M s^2/6+F/s) acc^(2/3) "
+            "(forward_total_error, central_total_error); gradient/Jacobian entries are the scalar rule on the coordinate "
+            "restriction; method defaulting; entry-point shape rule. "
+            "(ii) predicate-only: floating-point rounding (the rounding term is the hypothesis delta in the theorems and a measured "
+            "16*eps*sum|terms|/h allowance in derivative_error); cleanUpH's purpose (y0+h exactly representable) is observed "
+            "(step_nonzero, step_symmetric) but not proved; the Taylor hypotheses are discharged per test function by analytic bounds "
+            "M2/M3 computed in the harness. "
+            "(iii) not covered: user functions that fail (non-zero return), Differentiator statistics other than the call count, "
+            "non-smooth functions, accuracy settings below the true rounding of f; replay re-runs only the scalar route",
     assumptions=["libm sqrt/pow (AccFac1 = sqrt(acc), AccFac2 = pow(acc,1/3)) trusted",
                  "the user function's values are taken from the harness log (the model is parametric in f)"],
 )
